@@ -177,6 +177,19 @@ def run_driver(oplines, timeout=7200):
     """returns list of (model, spec) per op line"""
     if not oplines:
         return []
+    # every op line is self-contained (the handlers are pure functions of the line): run the lines in parallel chunks
+    nproc = min(int(os.environ.get("VERIF_DRIVER_PAR", "8")), max(1, len(oplines) // 100))
+    if nproc > 1:
+        from concurrent.futures import ThreadPoolExecutor
+        size = (len(oplines) + nproc - 1) // nproc
+        chunks = [oplines[i:i + size] for i in range(0, len(oplines), size)]
+        with ThreadPoolExecutor(max_workers=nproc) as ex:
+            parts = list(ex.map(lambda c: _run_driver_chunk(c, timeout), chunks))
+        return [r for part in parts for r in part]
+    return _run_driver_chunk(oplines, timeout)
+
+
+def _run_driver_chunk(oplines, timeout):
     p = subprocess.run([DRIVER], input="\n".join(oplines) + "\n", stdout=subprocess.PIPE,
                        stderr=subprocess.PIPE, text=True, timeout=timeout)
     res = []
